@@ -82,8 +82,8 @@ def check(cx):
 
     # ---- C08.5 repeatable DDL recovery, tolerant DML undo ----------------------------------------------
     r5 = cx.rule("C08.5", "FLOW: every DropTableInstr/DropIndexInstr built by recovery has if_exists = true (never the "
-                 "statement-level inverse()), and the DML undo handlers return early when the table does not exist",
-                 floor=4 + 3)
+                 "statement-level inverse()) and every replayed DROP TABLE cascades to the table's indexes; the DML undo "
+                 "handlers return early when the table does not exist", floor=4 + 3 + 2)
     for name in ("undo_create", "redo_drop"):
         f = cx.guard(r5, name, p.fn, RECUP + "::" + name)
         if not f:
@@ -97,6 +97,13 @@ def check(cx):
             k = op_const(c.args[-1])
             cx.verdict(k is not None and k.get("v") == 1, r5, "%s:if_exists#%d" % (name, i), c.where(),
                        "if_exists = true", "%s builds a DROP instruction whose if_exists is not the constant true" % name)
+            if c.callee.endswith("DropTableInstr::new"):
+                # the log record of a DROP carries the CREATE image only, not the statement's CASCADE flag: a table
+                # that owned indexes can only have been dropped with CASCADE, so replay must drop them too
+                k = op_const(c.args[2]) if len(c.args) == 4 else None
+                cx.verdict(k is not None and k.get("v") == 1, r5, "%s:cascade#%d" % (name, i), c.where(), "cascade = true",
+                           "%s replays a DROP TABLE without cascade: the table's indexes stay in the catalog as orphans "
+                           "(their names stay taken; replaying a later CREATE of the same name makes open() fail)" % name)
         if not news:
             cx.bad(r5, name + ":no-drop-built", f.where(), "%s builds no DROP instruction" % name)
     te = RECUP + "::table_exists"
